@@ -87,7 +87,7 @@ Proof.
   unfold finish_element. intros H.
   destruct (negb (push_children_ok (e_kind a) children) && is_nonempty_l children); [discriminate|].
   set (children' := match e_kind a with
-                    | KP | KRt | KRtc => match children with [] => [] | _ => lwsp_children (isd_attrs a st) children end
+                    | KP | KRt | KRtc | KRp => match children with [] => [] | _ => lwsp_children (isd_attrs a st) children end
                     | _ => children end) in H.
   assert (Hc : flat_map shown_leaves children' = flat_map shown_leaves children).
   { unfold children'. destruct (e_kind a); try reflexivity; (destruct children; [reflexivity | apply lwsp_children_keeps]). }
